@@ -24,8 +24,8 @@ TIERS = {
     "thorough": {"runs": 40000, "budget": 720},
 }
 # quick tier sized so that each check takes about 20-30 s on 16 cores
-QUICK_RUNS = {"C01": 5000, "C03": 4000, "C04": 3000, "C05": 4000, "C08": 1600, "C10": 1600, "C16": 3000,
-              "C17": 6000, "C20": 3000}
+QUICK_RUNS = {"C01": 4000, "C03": 3000, "C04": 2500, "C05": 3500, "C08": 1000, "C10": 1400, "C16": 3000,
+              "C17": 5000, "C20": 3000}
 THOROUGH_RUNS = {"C08": 25000, "C10": 25000}
 
 # probes that must be non-zero for a batch to count as having explored the property
